@@ -83,7 +83,8 @@ def generate(R, tier, focus):
     if focus == 'C18':
         return generate18(R, tier)
     thorough = tier == 'thorough'
-    region = gen.gen_lattice(R, max_cells=9, allow_holes=False)
+    region = gen.gen_lattice(R, max_cells=9, allow_holes=R.random() < 0.6)
+    twin = gen.lattice_twin(R, region)
     mags = gen.gen_mags(R)
     n_max = 12 if not thorough else 60
     cats = []
@@ -103,6 +104,9 @@ def generate(R, tier, focus):
                         'to_us': R.randint(MS_1900, MS_2200) * 1000 + R.choice((0, 0, 1, 999999, R.randint(0, 999999)))})
         elif x < 0.25:
             ops.append({'op': 'TZ_SWITCH', 'tz': R.choice(TZ_CHOICES)})
+        elif x < 0.4 and twin is not None:
+            # a catalog on a look-alike region (same spacing, cell count and extent, other cells) goes through dict / JSON
+            ops.append({'op': 'TWIN', 'fmt': R.choice(('dict', 'json')), 'n': R.randint(0, 3)})
         elif x < 0.35:
             # the live catalog object is changed in place between round trips (optionally after its dict form was built)
             ci = R.randrange(len(cats))
@@ -124,7 +128,7 @@ def generate(R, tier, focus):
     if R.random() < 0.15:
         probe = {'kind': R.choice(('enospc', 'torn_file', 'torn_file')), 'fmt': R.choice(('ascii', 'json')),
                  'cat': R.randrange(len(cats)), 'cut': R.random()}
-    return {'engine': 'persistsim', 'kind': 'C14', 'region': region, 'mags': mags, 'cats': cats, 'ops': ops, 'probe': probe,
+    return {'engine': 'persistsim', 'kind': 'C14', 'region': region, 'region_twin': twin, 'mags': mags, 'cats': cats, 'ops': ops, 'probe': probe,
             'tz': R.choice(TZ_CHOICES),
             'clock_us': R.choice((R.randint(0, 4 * 10 ** 15), R.randint(10 ** 9, 2 * 10 ** 9) * 10 ** 6))}
 
@@ -140,7 +144,9 @@ def generate18(R, tier):
         inner = rngsim.generate(R2, tier, 'C18')
         inner['ops'] = []
     region = gen.gen_lattice(R, max_cells=12, allow_holes=R.random() < 0.5)
+    twin18 = gen.lattice_twin(R, region)
     if R.random() < 0.4:
+        twin18 = None
         # lattices whose anchor / spacing are not short decimals ("for all Cartesian lattices")
         dh = R.choice((1.0 / 3.0, 0.1, 0.3, 1.0 / 7.0, 0.25, 1.0))
         ax = R.choice((1.0 / 7.0, -2.0 / 3.0, 0.1 + 1.0 / 3.0, 100.0 / 7.0, -0.7, 33.3))
@@ -150,7 +156,7 @@ def generate18(R, tier):
         R.shuffle(cells)
         region = {'kind': 'cart', 'dh': dh, 'origins': cells, 'holes': [], 'odd': True,
                   'bbox': [ax, ay, ax + nx * dh, ay + ny * dh]}
-    return {'engine': 'persistsim', 'kind': 'C18', 'sub': sub, 'inner': inner, 'region18': region,
+    return {'engine': 'persistsim', 'kind': 'C18', 'sub': sub, 'inner': inner, 'region18': region, 'twin18': twin18,
             'mags18': gen.gen_mags(R), 'backup': R.random() < 0.3, 'calibration': R.random() < 0.4,
             'probe_seed': R.randint(0, 10 ** 9), 'tz': R.choice(TZ_CHOICES), 'clock_us': R.randint(0, 4 * 10 ** 15),
             'same_instant': R.random() < 0.5}
@@ -257,6 +263,32 @@ def _execute14(scn, ctx, store, clock):
             if not hexf([list(x) for x in rows_of(c)]) == hexf([list(x) for x in model_rows(cur_events[ci])]):
                 ctx.count('mutate_mismatch')                   # C04's business; this object is no longer used
                 del live[ci]
+            continue
+        if kind == 'TWIN':
+            tw = scn.get('region_twin')
+            if not tw:
+                continue
+            import random as _random
+            P = _random.Random(oi)
+            treg = build.make_region(tw, scn['mags'])
+            evs = [gen.gen_event(P, tw, scn['mags'], eid='tw%d' % k)[0] for k in range(op['n'])]
+            tc = build.make_catalog(evs, region=treg, catalog_id=3, name='twin')
+            n_files += 1
+            if op['fmt'] == 'dict':
+                r = call(lambda: CSEPCatalog.from_dict(tc.to_dict()))
+            else:
+                pth = store.path('twin_%d.json' % n_files)
+                r = call(tc.write_json, pth)
+                if r[0] == 'ok':
+                    r = call(csep.load_catalog, pth)
+            ctx.count('twin_region_roundtrip')
+            if r[0] != 'ok':
+                ctx.violate('C14', 'exception', 'TWIN:%s:%s' % (op['fmt'], r[1]), {'op': oi, 'msg': r[2]})
+                continue
+            nr = getattr(r[1], 'region', None)
+            if nr is None or not _same_region(ctx, treg, nr, tw, op_seed=oi):
+                ctx.violate('C14', 'metadata', '%s:region-differs' % op['fmt'], {'op': oi, 'which': 'look-alike region'})
+            _compare_rows(ctx, rows_of(r[1]), model_rows(evs), 'TWIN:' + op['fmt'], oi)
             continue
         if kind == 'CLOCK_JUMP':
             ctx.count('fire:clock_' + op['kind'])
@@ -624,6 +656,15 @@ def _execute18(scn, ctx, store, clock):
             import os
             ctx.count('probe:backup_files_kept', len([f for f in os.listdir(store.root) if 'backup' in f]))
     # region clause
+    if scn.get('twin18'):
+        # a look-alike lattice (same spacing, cell count, extent; other cells) is rebuilt from its dict first
+        tl = scn['twin18']
+        rt = call(build.make_region, tl, scn['mags18'])
+        if rt[0] == 'ok':
+            rr = call(lambda: CartesianGrid2D.from_dict(rt[1].to_dict()))
+            ctx.count('twin_region_roundtrip')
+            if rr[0] == 'ok' and not _same_region(ctx, rt[1], rr[1], tl, op_seed=scn['probe_seed']):
+                ctx.violate('C18', 'region', 'rebuilt-region-assigns-different-cell', {'which': 'look-alike lattice'})
     reg_lit = scn['region18']
     ra_ = call(build.make_region, reg_lit, scn['mags18'])
     if ra_[0] != 'ok':
